@@ -170,5 +170,71 @@ let predict_c (c : string) (obs : string) : string * string * bool =
       (pred, verdict ok why, true)
   | _ -> ("unknown-case", "BAD:unknown-case", false)
 
+(* ---- middleware cells: mpair <kind> <limit> <passes> <cfg> <items> <chosen> <cancel> <eof> <mws> ---- *)
+
+let mwops_of (s : string) : mwop list =
+  List.filter_map (fun f ->
+      if f = "" then None
+      else match f.[0] with
+        | 'd' -> Some (MDate (if String.length f = 1 then [] else bytes_of_hex (tail1 f)))
+        | 'a' -> let (k, v) = kv_of (tail1 f) in Some (MAdd (k, v))
+        | 's' -> let (k, v) = kv_of (tail1 f) in Some (MSet (k, v))
+        | 'x' -> Some (MDel (bytes_of_hex (tail1 f)))
+        | 'I' -> Some MBadInit
+        | _ -> failwith "mw") (split_on ',' s)
+
+let predict_m (c : string) (obs : string) : string * string * bool =
+  match split_blank c with
+  | ["mpair"; kind; lim; pas; cfg; items; chosen; cancel; _eof; mws] ->
+      let lim = int_of_string lim and pas = int_of_string pas in
+      let k = dkind_of kind in
+      let uri_like = (kind = "uri" || kind = "uripost") in
+      let cfgh = List.map kv_of (split_on ',' cfg) in
+      let items = citems_of items in
+      let ops = mwops_of mws in
+      let chb = List.map (fun t -> bytes_of_hex (tail1 t)) (split_on ',' chosen) in
+      let cs = file_entries cfgh items [] O in
+      let n = List.length cs in
+      let src_len = List.length (chosen_content chb cs) in
+      let (sc, ss, sa, sr, pc, ps, pa, pr) =
+        (match split_blank obs with
+         | ["S"; a; b; c; d; "P"; e; f; g; h] -> (int_of_string a, b, c, d, int_of_string e, f, g, h)
+         | _ -> (0, "-", "?", "?", 0, "-", "?", "?")) in
+      let cancel_m = if cancel = "-" then None else Some (int_of_string cancel) in
+      let bnd = (match bound (nat_of_int lim) (nat_of_int pas) (nat_of_int src_len) with Some b -> Some (int_of_nat b) | None -> None) in
+      let fuel cnt = nat_of_int (60 * ((max cnt (match bnd with Some b -> b | None -> 0)) + 1) * (n + 2)) in
+      let render_m ((l, o), cl) =
+        let l = List.map (fun (c, r) -> render_view (view_m uri_like c r)) l in
+        Printf.sprintf "%d %s %s %s" (List.length l) (if l = [] then "-" else String.concat "," l)
+          (if cl then "closed" else "blocked") (out_class o) in
+      let run preload cancel cnt = render_m (deliver_m k preload (nat_of_int lim) (nat_of_int pas) cfgh items chb ops cancel (fuel cnt)) in
+      let one preload ocount oline =
+        (match cancel_m with
+         | None -> run preload None ocount
+         | Some _ ->
+             let p_c = run preload (Some (nat_of_int ocount)) ocount in
+             if init_fails ops then p_c
+             else if bnd = None && src_len > 0 then p_c
+             else begin
+               let p_none = run preload None ocount in
+               if p_none = oline then p_none else p_c
+             end) in
+      let sline = Printf.sprintf "%d %s %s %s" sc ss sa sr and pline = Printf.sprintf "%d %s %s %s" pc ps pa pr in
+      let pred = "S " ^ one false sc sline ^ " P " ^ one true pc pline in
+      let views s = List.map view_of_obs (split_on ',' s) in
+      let ok = spec14m_b uri_like (nat_of_int lim) (nat_of_int pas) cfgh items chb ops
+          (match cancel_m with None -> None | Some m -> Some (nat_of_int m))
+          (views ss) (views ps) (sa = "closed") (pa = "closed") (runclass_of sr) (runclass_of pr) in
+      let why =
+        if init_fails ops then "a middleware cannot start: want nothing delivered, sink closed, Run fails, on both paths"
+        else if sline <> pline then "preload on and off differ"
+        else if src_len = 0 then "nothing matches: want nothing delivered, sink closed, Run returns"
+        else "want the " ^ string_of_int src_len ^ " chosen entries replayed cyclically, every request = the middlewares applied once to the headers of the entry's own line"
+             ^ (match bnd with Some b -> Printf.sprintf ", %d delivered, closed, run ok" b | None -> " until cancelled") in
+      (pred, verdict ok why, true)
+  | _ -> ("unknown-case", "BAD:unknown-case", false)
+
 let () = run_cases (fun c obs ->
-    if String.length c >= 5 && String.sub c 0 5 = "cpair" then predict_c c obs else predict c obs)
+    if String.length c >= 5 && String.sub c 0 5 = "cpair" then predict_c c obs
+    else if String.length c >= 5 && String.sub c 0 5 = "mpair" then predict_m c obs
+    else predict c obs)
